@@ -31,9 +31,7 @@ def append(val: str, arg: object) -> str:
 
     If _arg_ is not a string, it will be converted to one before concatenation.
     """
-    if not isinstance(arg, str):
-        arg = str(arg)
-    return val + arg
+    return val + to_liquid_string(arg)
 
 
 @string_filter
